@@ -179,8 +179,8 @@ func drawC11Spec(t *rapid.T, label string, interop bool) c11Spec {
 
 func TestC11(t *testing.T) {
 	rec := ev.Get("C11")
-	rec.Rule("ConfigSpecs: id 0..255, KEM ids, public keys of 0..200 bytes (valid X25519 points for interop cases), 0..8 cipher suites incl. unknown ids, public names of 1..255 bytes (and invalid lengths 0, 256..300), lists of 0..6 configs. Oracles: harness decoder written from draft section 4 reads Bytes() and agrees field by field; Spec()/ParseConfigList return the generated specs in order; harness-encoded configs parse to the same fields (both directions); crypto/tls client+server accept interop configs (outer SNI = public name, config id named, ECHAccepted on both sides); every strict prefix of a valid list is rejected; trailing bytes beyond declared lengths do not change the result; length fields +-1 never panic. distinct = encoding hash; non-trivial = name length not in {11,18} or id != 1 or non-default suites")
-	rec.Mandatory("suites_cut_mid_suite", "name_len1", "name_len239", "name_len240", "name_len255", "list0", "list_ge3", "interop", "single_suite_aead1", "single_suite_aead2", "single_suite_aead3", "invalid_name_len", "prefix_rejected", "newconfig")
+	rec.Rule("ConfigSpecs: id 0..255, KEM ids, public keys of 0..200 bytes (valid X25519 points for interop cases), 0..8 cipher suites incl. unknown ids, public names of 1..255 bytes (and invalid lengths 0, 256..300), lists of 0..6 configs. Oracles: harness decoder written from draft section 4 reads Bytes() and agrees field by field; Spec()/ParseConfigList return the generated specs in order; harness-encoded configs parse to the same fields (both directions); crypto/tls client+server accept interop configs (outer SNI = public name, config id named, ECHAccepted on both sides); every strict prefix of a valid list is rejected; trailing bytes beyond declared lengths do not change the result; length fields +-1 never panic; one length field of a valid config changed by -4..+200: no panic and the result (acceptance and fields) is independent of every byte beyond the config's declared length, stand-alone and inside a list. distinct = encoding hash; non-trivial = name length not in {11,18} or id != 1 or non-default suites")
+	rec.Mandatory("suites_cut_mid_suite", "name_len1", "name_len239", "name_len240", "name_len255", "list0", "list_ge3", "interop", "single_suite_aead1", "single_suite_aead2", "single_suite_aead3", "invalid_name_len", "prefix_rejected", "newconfig", "lenfield:contents_length", "lenfield:public_key_length", "lenfield:cipher_suites_length", "lenfield:public_name_length", "lenfield:extensions_length")
 	rapid.Check(t, func(t *rapid.T) {
 		interop := rapid.IntRange(0, 9).Draw(t, "interop") == 0
 		n := rapid.IntRange(0, 6).Draw(t, "nconfigs")
@@ -321,6 +321,104 @@ func TestC11(t *testing.T) {
 			}
 			if e := guard(func() error { _, e := ech.Config(m[2:]).Spec(); return e }); isPanic(e) {
 				ev.Violation(t, "C11", map[string]any{"bytes": hx(m[2:])}, "Spec panicked: %v", e)
+			}
+		}
+		// (5) one length field of a valid config made inconsistent with what encloses it:
+		// no panic, and nothing outside the config's declared length may influence the
+		// result (neither acceptance nor any returned field)
+		if len(cfgs) > 0 {
+			s0 := specs[0]
+			offPK := 4 + 1 + 2
+			offSuites := offPK + 2 + len(s0.Pub)
+			offName := offSuites + 2 + 4*len(s0.Suites) + 1
+			offExt := offName + 1 + len(s0.Name)
+			type lf struct {
+				name string
+				off  int
+				size int
+			}
+			fields := []lf{{"contents_length", 2, 2}, {"public_key_length", offPK, 2}, {"cipher_suites_length", offSuites, 2}, {"public_name_length", offName, 1}, {"extensions_length", offExt, 2}}
+			fld := fields[uniform(t, "lenfield", len(fields))]
+			pcfg := append([]byte{}, cfgs[0]...)
+			if offExt+2 != len(pcfg) {
+				t.Fatalf("harness: config layout mismatch (%d != %d)", offExt+2, len(pcfg))
+			}
+			old := int(pcfg[fld.off])
+			if fld.size == 2 {
+				old = old<<8 | int(pcfg[fld.off+1])
+			}
+			delta := rapid.SampledFrom([]int{-4, -3, -2, -1, 1, 2, 3, 4, 7, 32, 200}).Draw(t, "lendelta")
+			nv := old + delta
+			if nv < 0 {
+				nv = old + 1
+			}
+			if fld.size == 1 {
+				nv &= 0xff
+				pcfg[fld.off] = byte(nv)
+			} else {
+				nv &= 0xffff
+				pcfg[fld.off], pcfg[fld.off+1] = byte(nv>>8), byte(nv)
+			}
+			if nv != old {
+				declared := 4 + (int(pcfg[2])<<8 | int(pcfg[3]))
+				what := fmt.Sprintf("%s %d -> %d", fld.name, old, nv)
+				if declared > len(pcfg) {
+					// declared length beyond the input: truncated
+					exact := make([]byte, len(pcfg))
+					copy(exact, pcfg)
+					e := guard(func() error { _, e := ech.Config(exact[:len(exact):len(exact)]).Spec(); return e })
+					if isPanic(e) || e == nil {
+						ev.Violation(t, "C11", map[string]any{"bytes": hx(pcfg)}, "Spec() accepted / panicked on a config whose declared length exceeds the input (%s): %v", what, e)
+					}
+				} else {
+					region := pcfg[:declared]
+					junkA := hello.GenBytes(t, "lf_junk_a", 300)
+					junkB := make([]byte, 300)
+					for i := range junkB {
+						junkB[i] = ^junkA[i]
+					}
+					variants := [][]byte{make([]byte, declared), append(append([]byte{}, region...), junkA...), append(append([]byte{}, region...), junkB...)}
+					copy(variants[0], region)
+					variants[0] = variants[0][:declared:declared]
+					var outs []string
+					for vi, v := range variants {
+						var sp ech.ConfigSpec
+						e := guard(func() error { var e error; sp, e = ech.Config(v).Spec(); return e })
+						if isPanic(e) {
+							ev.Violation(t, "C11", map[string]any{"bytes": hx(v)}, "Spec() panicked on a config with an inconsistent length field (%s, variant %d): %v", what, vi, e)
+						}
+						if e != nil {
+							outs = append(outs, "rejected")
+						} else {
+							outs = append(outs, fmt.Sprintf("%+v", sp))
+						}
+					}
+					if outs[0] != outs[1] || outs[1] != outs[2] {
+						ev.Violation(t, "C11", map[string]any{"config": hx(region), "junk_a": hx(junkA)}, "bytes beyond the config's declared length influence Spec() after %s (read beyond declared lengths):\n exact: %s\n +junkA: %s\n +junkB: %s", what, outs[0], outs[1], outs[2])
+					}
+					// the same inside a list: the next config's contents must not leak into this one
+					nextA := hello.ConfigBytes(9, 0x20, junkA[:32], hello.AllSuites, 64, junkA[32:32+200])
+					nextB := hello.ConfigBytes(9, 0x20, junkB[:32], hello.AllSuites, 64, junkB[32:32+200])
+					var louts []string
+					for _, nx := range [][]byte{nextA, nextB} {
+						l := append([]byte{byte((declared + len(nx)) >> 8), byte(declared + len(nx))}, region...)
+						l = append(l, nx...)
+						var ps []ech.ConfigSpec
+						e := guard(func() error { var e error; ps, e = ech.ParseConfigList(l); return e })
+						if isPanic(e) {
+							ev.Violation(t, "C11", map[string]any{"bytes": hx(l)}, "ParseConfigList panicked on a config with an inconsistent length field (%s): %v", what, e)
+						}
+						if e != nil || len(ps) == 0 {
+							louts = append(louts, "rejected")
+						} else {
+							louts = append(louts, fmt.Sprintf("%+v", ps[0]))
+						}
+					}
+					if louts[0] != louts[1] {
+						ev.Violation(t, "C11", map[string]any{"config": hx(region), "next_a": hx(nextA), "next_b": hx(nextB)}, "the following config of the list influences how this one is parsed after %s:\n %s\n %s", what, louts[0], louts[1])
+					}
+				}
+				cl = append(cl, "lenfield:"+fld.name)
 			}
 		}
 		// a cipher_suites vector cut in the middle of a suite (all enclosing lengths consistent)
